@@ -778,6 +778,8 @@ fn c17_corpus_small() -> Vec<SrcCase> {
         fixed_case(".orig x4000\nmsg: .stringz \"hé→\"\nbuf .blkw 3 ; é\nk .fill #-1\n", 0x4000, &[".stringz \"hé→\"", ".stringz \"hé→\"", ".stringz \"hé→\"", ".stringz \"hé→\"", ".blkw 3", ".blkw 3", ".blkw 3", ".fill #-1"], &[("msg", 0), ("buf", 4), ("k", 7)], &[], false),
         // operands on several lines with a comment in between; `.break` and `.orig` interleaved
         fixed_case("add r0,\n r1 ; c é\n , r2\n.break\n.orig x5000\nlp ld r0 lp\n.break\n", 0x5000, &["add r0,\n r1 ; c é\n , r2", "ld r0 lp"], &[("lp", 1)], &[1, 2], false),
+        // a directive directly behind a label operand, without any separator
+        fixed_case(".orig x3000\nbr skip.fill x1234\nskip st r0, val.stringz \"h\u{e9}\"\nval lea r1 skip.blkw 2 halt\n", 0x3000, &["br skip", ".fill x1234", "st r0, val", ".stringz \"h\u{e9}\"", ".stringz \"h\u{e9}\"", ".stringz \"h\u{e9}\"", "lea r1 skip", ".blkw 2", ".blkw 2", "halt"], &[("skip", 2), ("val", 6)], &[], false),
         // user space ends inside the program
         fixed_case(".orig xFDFF\na add r0 r0 #0\nb add r0 r0 #1\nc halt\n", 0xFDFF, &["add r0 r0 #0", "add r0 r0 #1", "halt"], &[("a", 0), ("b", 1), ("c", 2)], &[], false),
     ]
